@@ -181,15 +181,22 @@ def rawParent (f : Forest) (d : Die) : Option Die :=
                | _ => none)
   | none => none
 
-/-- cooked `parent`: when the parent is a partial unit's root, continue from the importing
-    DIE; the parent keeps the import chain of the DIE it is the parent of -/
+/-- is this DIE the root of its unit? -/
+def isUnitRoot (f : Forest) (d : Die) : Bool :=
+  match unitOf f d.off with
+  | some u => u.root.off == d.off
+  | none => false
+
+/-- cooked `parent`: when the parent is the root of an imported unit (partial or normal: the DIE
+    has an import chain), continue from the importing DIE; the parent keeps the import chain of
+    the DIE it is the parent of -/
 def cookedParent (f : Forest) : Nat → CDie → Option CDie
   | 0, _ => none
   | fuel + 1, ⟨d, chain⟩ =>
     match rawParent f d with
     | none => none
     | some p =>
-      if p.tag == DW_TAG_partial_unit then
+      if isUnitRoot f p then
         match chain with
         | imp :: rest =>
           match findDie f imp with
